@@ -170,15 +170,15 @@ CLAIMED = {
   "implementation only (independent Python encoder); keys are abstract. Found and fixed D21 ([A;N] ContainsOption) and D22 "
   "(MaybeSigner<false>/MaybeMut<false> erased the inner requirement)."),
  "C15": (
-  "11 Coq theorems (coq/Properties/C15.v, axiom-free) over an executable model of BorshAccount<T> abstract in the value type's "
+  "12 Coq theorems (coq/Properties/C15.v, axiom-free) over an executable model of BorshAccount<T> abstract in the value type's "
   "borsh (de)serializer: for every value type with an exact-consumption round trip, every account state and every instruction "
   "history, the value an instruction leaves is what the next instruction decodes and what the client deserializer returns; "
   "data_len = discriminant size + serialized size after every write-back; read-only, foreign-owned and closed accounts are never "
   "written; growth beyond the 10 KiB allowance fails with InvalidRealloc and leaves the data untouched. Tie: differential harness "
-  "on native accounts (four borsh types, three discriminant widths, 1.7k sequences quick / 150k thorough) and an independent "
+  "on native accounts (five borsh types - one, BTreeSet<u8>, with valid but non-canonical stored images, which a read-only instruction must leave byte for byte (C15_noncanonical_image) -, three discriminant widths, 2.6k sequences quick / 150k thorough) and an independent "
   "Python borsh predicate.",
   "The borsh implementation of a user type is an oracle (round trip, non-empty encodings), proved for a combinator model of borsh "
-  "and the four harness types and tied to the real crate by the correspondence. Types with an empty encoding are excluded "
+  "and the five harness types and tied to the real crate by the correspondence. Types with an empty encoding are excluded "
   "(BorshAccount treats data_len == discriminant size as closed). Found and fixed D6 (write-back serialized the Option wrapper)."),
  "C16": (
   "60 machine-checked theorems (coq/Properties/C16.v, axiom-free): for each of the 36 bound System / SPL Token / ATA "
